@@ -2,7 +2,8 @@
 (* C24 -- format/formatutil/format_gop.go: RearrangeFuncs (splitStmts,         *)
 (* firstNonDecl, isFuncDecl, codeOf) and SourceEx.                            *)
 (*                                                                           *)
-(* A script is a sequence of top-level CHUNKS.  A chunk has a kind (import,   *)
+(* A script is a sequence of top-level CHUNKS.  A chunk has a kind (package   *)
+(* clause, import,                                                            *)
 (* var, type, paren-grouped var, func, method, operator method, simple        *)
 (* statement, block statement with nested braces, func literal called in      *)
 (* place without / with result type, func-typed conversion) and a rendering   *)
@@ -21,10 +22,13 @@
 (*  - CODE: what RearrangeFuncs does today, as a state machine over the       *)
 (*    scanner's word stream (one action per word / per statement emitted),    *)
 (*    producing the exact predicted output as a sequence of atoms.           *)
-(* Known deviations of CODE from WANT are explicit in the line attributes:    *)
-(* a trailing comment is the first word of the NEXT statement, a newline      *)
-(* inside a parenthesised declaration ends a statement, `import` is not a     *)
-(* declaration, `func(...) T {` / `func(...)(...)` count as declarations.     *)
+(* Known deviations of CODE from WANT are explicit, each behind a named       *)
+(* dialect switch (one per repair in /verif/fixes, so the model follows the   *)
+(* code before and after it): TrailingCommentStays (a trailing comment is the *)
+(* first word of the NEXT statement), ParenIsNesting (a newline inside a      *)
+(* parenthesised declaration ends a statement), ImportIsDecl (`package` and   *)
+(* `import` are not declarations), FuncExprIsDecl (`func(...) T {` /          *)
+(* `func(...)(...)` count as declarations; repaired in 10d0eaa).              *)
 EXTENDS Naturals, Sequences, FiniteSets, TLC, VerifIO
 
 CONSTANTS MaxChunks, Kinds, Variants,
